@@ -107,13 +107,13 @@ for n in ["ser_nested_ok", "ser_nested_inner_fails", "ser_nested_regions_ok", "s
 PROPERTIES.update({k: dict(bounds="", outside="", assumptions=[]) for k in ["C14"]})
 
 # ---- error paths and close-on-exec (C11) ---------------------------------------------------------
-for n in ["err_channel_emfile", "err_send_dedicated_emfile", "err_connect_fails", "cloexec_created", "cloexec_received"]:
+for n in ["err_channel_emfile", "err_send_dedicated_emfile", "err_connect_fails", "cloexec_created", "cloexec_received", "cloexec_received_try", "cloexec_received_timeout"]:
     H(n, ["C11"], sym="payload bytes symbolic; which descriptor-creating call fails is concrete per harness", bounds="unwind 6..10")
 PROPERTIES.update({k: dict(bounds="", outside="", assumptions=[]) for k in ["C11"]})
 
-for n in ["recv_short_57_a", "recv_short_89_b", "recv_short_60_c"]:
+for n in ["recv_short_57_a", "recv_short_89_b", "recv_short_60_c", "recv_short_20_d", "recv_short_24_e"]:
     H(n, ["C01", "C13", "C18", "C02"], sym="message contents symbolic; a valid plan with follow-ups SHORTER than the receiver's window (what the sender emits after ENOBUFS shrank its fragment size), injected; boundaries concrete (name)",
-      bounds="unwind 8; 3..5 packets")
+      bounds="unwind 8; 2..5 packets; totals 20 and 24 are messages that fit one packet but were re-fragmented")
 # ---- handle histories (C03) ------------------------------------------------------------------------
 for n in ["hist_clone_then_drop_original", "hist_queue_then_drop", "hist_three_handles", "hist_clone_dropped_at_once"]:
     H(n, ["C03"], sym="bytes sent symbolic; the history (clone / drop / send on up to 3 handles) concrete per harness, observed by try_recv after every step",
@@ -162,8 +162,12 @@ PROPERTIES = {
         assumptions=[_A_KQ, "descriptor numbers are never reused by the model, so a double close is always EBADF"]),
     "C12": dict(
         bounds="3-packet message (57 bytes), sender dying after 0,1,2,3 packets got out (the prefixes of the plan send_plan_* establish), with/without one attachment, 0 or 1 surviving sender handle, observed by recv and try_recv; an earlier complete message must survive",
-        outside="death of the receiver; observation through a receiver set / router; shapes of > 3 packets (same loop)",
+        outside="death of the receiver; observation through a router (threads); shapes of > 3 packets (same loop); through a receiver set: one crashed member next to one healthy member, crash after 1 or 2 packets",
         assumptions=[_A_KQ, _A_INJ, "a crash point between two system calls is observable only through the packets already sent: the sender's packet sequence prefix + closing all its descriptors"]),
+    "C06": dict(
+        bounds="sequential core on concrete scripts with symbolic payloads: 1..3 members, 1 or 2 selects per harness, messages of 1 and 2 packets; traffic queued before add (one and two messages, send order); a closure with nothing queued, a closure after a last message (message first, then exactly one closed event), the surviving member still served under its own id; ids pairwise distinct; the model's epoll is EDGE-triggered (a readiness edge is reported once) and flags a lost wake-up whenever a wait would block while a registered endpoint still has an unread packet or an unreported hang-up; a member whose sender died mid-message (C12)",
+        outside="interleavings of sender threads with the selecting thread (Kani does not encode threads: every script here is one sequential history); more ready members than mio's event buffer (10) - the model's epoll holds 4 registrations; EINTR in the wait (harness rxset_one_member_eintr exists: io::Error's bit-packed representation makes the symbolic execution run out of memory) ; more than two selects in a row; the ipc-level wrapper IpcReceiverSet (iterator adaptors over the result enum: did not finish); the in-process, macOS and Windows back ends",
+        assumptions=[_A_KQ, _A_INJ, "hook H4: under cfg(kani) the member table (HashMap<Token, PollEntry>) is an association list with the same insert/get/remove/values surface - std's HashMap is trusted to be a map", "mio's Poll/Registry/Events/SourceFd code is the real one, compiled by Kani, over the model's epoll_create1/epoll_ctl/epoll_wait", "the set is forgotten, not dropped, at the end of each harness (std's OwnedFd debug check calls variadic fcntl with two arguments: kani-compiler ICE); the ledger accounts for the epoll descriptor and the members still registered", "select results are read in place and not dropped (non-constant enum discriminants, see DESIGN §2 lesson 4); the descriptor ledger shows that nothing was attached to them"]),
     "C13": dict(
         bounds="quick: every ENOBUFS pattern over the first 4 attempts (symbolic mask), lengths <= 2^22, buffer sizes in [4096, 2^20], <= 6 attempts, with and without 3 attachments, + concrete refused-first-fragment shapes and short follow-ups on the receive side; thorough: 8 mask bits, lengths <= 2^26, buffer sizes <= 2^24, <= 10 attempts; M-queries: downsize and the retry steps for all 64-bit values",
         outside="patterns beyond the masked attempts (M-query induction only); byte-exact delivery under ENOBUFS (the receive side accepts every valid plan: rt_bytes_* + window M-queries)",
@@ -208,6 +212,7 @@ HARNESSES["send_plan_noatt_enobufs"]["tiers"] = {"C02": "thorough", "C01": "thor
 HARNESSES["send_plan_att_enobufs"]["props"] = ["C13", "C04"]
 HARNESSES["send_plan_att_enobufs"]["tiers"] = {"C04": "thorough"}
 
+H("c14_de_nested_channels", ["C14"], sym="inner value symbolic; a receive nested inside a Deserialize impl between two CHANNELS of the enclosing message; the nested message carries a third", bounds="unwind 14; depth 2")
 H("c14_de_nested", ["C14"], sym="inner value symbolic; a receive (OpaqueIpcMessage::to) nested inside a Deserialize impl between two regions of the enclosing message", bounds="unwind 14; depth 2")
 HARNESSES["shm_zero_received"]["props"].append("C05")
 for n in ["ser_fail_visit1", "ser_fail_visit3"]:
@@ -227,14 +232,30 @@ for n in ["send_plan_noatt_enobufs", "send_plan_att_enobufs"]:
 for n in ["send_plan_noatt_enobufs_q", "send_plan_att_enobufs_q", "send_plan_noatt_nofault", "send_plan_att_nofault", "send_plan_noatt_enobufs", "send_plan_att_enobufs"]:
     HARNESSES[n]["mem_gb"] = 30   # a mutated sender made the 14 GB default run out of memory (=> inconclusive, not a verdict)
 
+for n in ["modes_timeout_zero", "modes_timeout_1ns", "modes_timeout_sub_ms", "modes_timeout_1ms", "modes_timeout_mixed"]:
+    H(n, ["C10"], sym="none: one concrete duration (0, 1 ns, 999999 ns, 1 ms, 2.500000001 s) on an idle connected channel", bounds="unwind 8")
 H("modes_timeout_queued_then_hangup", ["C10", "C03"], sym="message bytes symbolic; a timed receive when data and the hang-up are both pending", bounds="unwind 8")
 
 for n in ["send_retry_first_single_att", "send_retry_first_frag_att", "send_retry_first_frag_noatt"]:
     H(n, ["C13", "C04"], features="k_rec", sym="none (shape): 3000 / 9000 bytes with reported SO_SNDBUF 8192, the first one or two attempts refused with ENOBUFS, 0 or 2 attachments",
       bounds="unwind 12", opt=["REACH_ERR"])
 
-# ---- receiver set (C06): NOT CLAIMED.  kani/src/h_set.rs::rxset_two_members passes natively, but under Kani the
-# symbolic execution does not get past hashbrown's group-probing loop (SIMD emulation) in 40 minutes.
+H("ser_mixed_indices", ["C04", "C05"], features="k_rec", sym="none (shape): a value (sender, region, sender, region) through ipc::channel; payload indices and descriptor order observed on the wire", bounds="unwind 8")
+for n in ["send_moves_receiver_small", "send_moves_receiver_frag", "send_moves_receiver_retry"]:
+    H(n, ["C03", "C09", "C11"], features="k_rec", sym="none (shape): 100 / 9000 / 3000 bytes with reported SO_SNDBUF 8192 (one packet, several, first attempt refused); a receiving end and a clone of a sending end attached",
+      bounds="unwind 12")
+
+# ---- receiver set (C06; C12 observed through a set) ----------------------------------------------
+# The real OsIpcReceiverSet over mio's real Poll/Registry/Events code and the model's edge-triggered epoll; hook H4
+# replaces the member table's hashbrown map by an association list under cfg(kani).  One or two selects per harness:
+# cost grows steeply with the number of selects (rxset_two_members, three selects, does not finish in 25 min).
+_set_sym = "payload bytes symbolic; the script (members, who gets what, when a sender goes away, when select is called) concrete per harness"
+_set_b = "unwind 14; <= 3 members, <= 2 selects, messages of 1 and 2 packets"
+for n in ["rxset_one_member", "rxset_two_multi", "rxset_closed_then_other", "rxset_add_queued_two"]:
+    H(n, ["C06"], sym=_set_sym, bounds=_set_b)
+for n in ["rxset_crash_after_1", "rxset_crash_after_2"]:
+    H(n, ["C12", "C06"], sym=_set_sym + "; the second member's only sender dies after 1 / 2 of 3 packets", bounds=_set_b)
+H("rxset_crash_after_1_surv", ["C12"], sym=_set_sym + "; the sender dies after 1 of 3 packets while another handle of the channel survives", bounds=_set_b)
 # recv_plan_sym_60 (all packet boundaries of a 60-byte message symbolic) exists in h_recv.rs but runs out of memory even at 45 GB
 # (symex 91 s, solver 486 s): the receive side is decided on the concrete plans recv_short_* + the window M-queries.
 
